@@ -44,21 +44,21 @@ def nontrivial(A):
     return 1 < hi < len(A.Q)
 
 
-def check_plain(acc, spec, routines=ROUTINES, scheme='s', logging=False, morph=False):
+def check_plain(acc, spec, routines=ROUTINES, scheme='s', logging=False, morph=False, letters='ab'):
     from gambatools.global_settings import GambaTools
-    rp = {'fn': 'mc.props.c04:one_plain', 'mode': 'plain', 'params': {'spec': spec, 'scheme': scheme, 'logging': logging}}
+    rp = {'fn': 'mc.props.c04:one_plain', 'mode': 'plain', 'params': {'spec': spec, 'scheme': scheme, 'logging': logging, 'letters': letters}}
     if morph:
         rp = {'fn': 'mc.props.c04:t_plain', 'mode': 'plain', 'params': dict(acc.data.get('ctx', {}), upto=spec)}
-    A = common.ref_of_dfa_spec(spec, scheme)
+    A = common.ref_of_dfa_spec(spec, scheme, letters)
     acc.states += 1
     if nontrivial(A):
         acc.nontrivial += 1
-        acc.sample({'dfa': spaces.dfa_parts(spec, scheme)[2] and {'Q': A.Q, 'delta': {'{},{}'.format(q, a): sorted(r)[0] for (q, a), r in A.delta.items()}, 'q0': A.q0, 'F': sorted(A.F)}, 'nerode_classes_all_states': fa.n_classes(A, A.Q)})
+        acc.sample({'dfa': spaces.dfa_parts(spec, scheme, letters)[2] and {'Q': A.Q, 'delta': {'{},{}'.format(q, a): sorted(r)[0] for (q, a), r in A.delta.items()}, 'q0': A.q0, 'F': sorted(A.F)}, 'nerode_classes_all_states': fa.n_classes(A, A.Q)})
     for name in routines:
         inst = {'dfa': spec, 'scheme': scheme, 'routine': name, 'schedule': 'CPython order, seed 0', 'logging': logging}
         if morph:
             inst['presented_as'] = 'one live DFA rewritten in place after earlier minimisations'
-        D = spaces.morph_dfa(spec, scheme) if morph else spaces.build_dfa(spec, scheme)
+        D = spaces.morph_dfa(spec, scheme) if morph else spaces.build_dfa(spec, scheme, letters)
         before = common.snap_dfa(D)
         GambaTools.enable_logging = logging
         try:
@@ -70,8 +70,18 @@ def check_plain(acc, spec, routines=ROUTINES, scheme='s', logging=False, morph=F
             judge(acc, name, inst, rp, D, before, M, A)
 
 
-def one_plain(acc, spec, scheme='s', logging=False):
-    check_plain(acc, spec, ROUTINES, scheme, logging)
+def one_plain(acc, spec, scheme='s', logging=False, letters='ab'):
+    def tl(x):
+        return tuple(tl(y) for y in x) if isinstance(x, list) else x
+    check_plain(acc, tl(spec), ROUTINES, scheme, logging, letters=letters)
+
+
+def t_family(acc, family, shard, nshard, scheme='s', stride=1, offset=0):
+    gen = {'anchored10': lambda: spaces.anchored_swap_family(10), 'anchored11': lambda: spaces.anchored_swap_family(11)}[family]()
+    for idx, spec in gen:
+        if idx % stride == offset % stride and (idx // stride) % nshard == shard:
+            check_plain(acc, spec, scheme=scheme, letters='w')
+            acc.nontrivial += 1
 
 
 def check_sched(acc, spec, depth, routines=ROUTINES, scheme='s', only_boost=None):
@@ -108,7 +118,7 @@ def one_sched(acc, spec, scheme, routine, boost=(), native=False):
     check_sched(acc, spec, 0, (routine,), scheme, only_boost=(tup(boost), native))
 
 
-def t_plain(acc, n, k, shard, nshard, stride=1, offset=0, logging=False, morph=False, upto=None, scheme='s'):
+def t_plain(acc, n, k, shard, nshard, stride=1, offset=0, logging=False, morph=False, upto=None, scheme='s', letters='ab'):
     def tl(x):
         return tuple(tl(y) for y in x) if isinstance(x, list) else x
     upto = tl(upto) if upto is not None else None
@@ -118,7 +128,7 @@ def t_plain(acc, n, k, shard, nshard, stride=1, offset=0, logging=False, morph=F
         acc.data['ctx'] = {'n': n, 'k': k, 'shard': shard, 'nshard': nshard, 'stride': stride, 'offset': offset, 'morph': True}
     for idx in range(offset + shard * stride, size, nshard * stride):
         spec = spaces.dfa_spec(n, k, idx)
-        check_plain(acc, spec, scheme=scheme, logging=logging, morph=morph)
+        check_plain(acc, spec, scheme=scheme, logging=logging, morph=morph, letters=letters)
         if upto is not None and spec == upto:
             break
     acc.data.clear()
@@ -157,6 +167,23 @@ def plan(tier, seed):
     plain(2, 2, 1, morph=True)
     plain(3, 1, 1, morph=True)
     plain(3, 2, 8, stride=5, offset=2, morph=True)
+    # wave 5
+    for s_ in range(16):
+        tasks.append(('plain', 'mc.props.c04:t_family', {'family': 'anchored10', 'shard': s_, 'nshard': 16}))
+        tasks.append(('plain', 'mc.props.c04:t_family', {'family': 'anchored11', 'shard': s_, 'nshard': 16, 'stride': 1 if tier != 'quick' else 4, 'offset': seed}))
+    for sch in ('u', 'g', 'K'):
+        plain(2, 2, 1, scheme=sch)
+        plain(3, 1, 1, scheme=sch)
+    plain(1, 5, 1, letters='w')
+    plain(2, 5, 4, letters='w')
+    plain(2, 6, 8, letters='w', stride=4, offset=seed % 4)
+    plain(3, 2, 8, stride=3, offset=2, scheme='u', letters='gr')
+    base = list(tasks)
+    pres = lambda name, p: name.endswith('t_plain') and (p['n'], p['k']) in ((2, 2), (3, 1), (3, 2), (2, 5)) and not p.get('morph') and not p.get('logging') and p.get('scheme', 's') in ('s', 'f')
+    for kn in ({'dorder': 'aq'}, {'dorder': 'rev'}):
+        tasks += common.knob_copies(base, pres, kn)
+    tiny = lambda name, p: name.endswith('t_plain') and (p['n'], p['k']) in ((2, 2), (3, 1)) and not p.get('morph') and not p.get('logging') and p.get('scheme', 's') == 's' and 'letters' not in p
+    tasks += common.ordered_copies(base, tiny, orders=common.OBJ_ORDERS)
     if tier == 'quick':
         plain(4, 2, 32, stride=64, offset=seed % 64)
         plain(5, 1, 16, stride=16, offset=seed % 16)
@@ -178,7 +205,7 @@ def plan(tier, seed):
         bounds = {'plain': 'DFA(n<=3,k<=2), DFA(4,1), DFA(4,2) (4 194 304), DFA(5,1) (500 000) all', 'scheduled': 'd<=3 on DFA(n<=2,k<=2), DFA(3,1); d<=2 on DFA(3,2), DFA(4,1); d<=1 on DFA(5,1) stride 1/2'}
     return {'tasks': tasks, 'bounds': bounds, 'exhaustive': True,
             'rule': 'every labelled DFA in the bounds x 3 minimisers; scheduled layer: every execution with <= d set-order deviations (boost lists) from the canonical global order, plus one execution under CPython order; states = distinct trace digests (+ instances in the plain layer); non-trivial = at least one merge and one split (1 < #classes < |Q|)',
-            'assumptions': ['set iteration order is a global total order on elements within one execution (DESIGN 3.4)', 'strided layers select index % K == VERIF_SEED % K', 'small spaces also with GambaTools.enable_logging = True and through one live DFA rewritten in place']}
+            'assumptions': ['set iteration order is a global total order on elements within one execution (DESIGN 3.4)', 'strided layers select index % K == VERIF_SEED % K', 'small spaces also with GambaTools.enable_logging = True and through one live DFA rewritten in place', 'wave 5: anchored-swap family (13-14 states, 4 letters, all states pairwise distinguishable, 1 560 / 1 848 automata), alphabets of 5-6 letters, names with non-decimal digits / generated-looking / keyword-like, transition dict filled in other orders, per-object set-order policies on DFA(2,2), DFA(3,1)']}
 
 
 def finish(acc, spec):
